@@ -138,3 +138,77 @@ def run(chk, P, units, fields=None, rule="R-EXTENT", exceptions=None):
                 chk.inst(rule, fn, "%s.%s@%s#%d" % (fld[0], fld[1], op, i), ok,
                          "%s over %s.%s has extent %s; the other %d operations on this field use %s" % (op, fld[0], fld[1], "*".join(sig) or "1", cnt[major], "*".join(major) or "1"), loc=loc)
     return n
+
+
+def counted_loops(chk, P, units, rule="R-EXTENT"):
+    """counted loops with constant bounds over a fixed-size array FIELD cover the whole array [0, N): a per-slot initialisation, copy
+    or release that stops early leaves the last slots stale (the duplicate of a topology without its last special level).
+    Arrays that the program also indexes by a non-constant expression of an enum type (type_depth[obj->type], type_filter[type])
+    are exempt: loops over sub-ranges of the enumeration are meaningful there.  Bounds are the compiler's constants (cval), the
+    loop form is `for (i = lo; i </<=/!= K; i++)` with the array indexed by exactly i in the body; other loops are not judged."""
+    # arrays indexed by an enum-typed non-constant expression anywhere in the program
+    enum_indexed = set()
+    for f in P.all_funcs(only_main=False):
+        T = f.unit.types
+        for s in f.walk():
+            if s["k"] == "Sub":
+                b = strip(s["c"][0])
+                if b is None or b["k"] != "Member" or not T[b["t"]].get("arr"):
+                    continue
+                ix = s["c"][1]
+                if cval(ix) is None:
+                    x = ix
+                    while x is not None and x["k"] == "Cast":
+                        if "t" in x and T[x["t"]].get("en"):
+                            break
+                        x = x["c"][0]
+                    if x is not None and "t" in x and T[x["t"]].get("en"):
+                        enum_indexed.add((b.get("rec"), b["f"]))
+    n = 0
+    perf = {}
+    for u in units:
+        for f in P.unit(u).funcs(only_main=True):
+            if f.entry is None:
+                continue
+            T = f.unit.types
+            for lp in f.walk():
+                if lp["k"] != "For" or len(lp["c"]) < 4:
+                    continue
+                init, cond, inc, body = lp["c"][:4]
+                if cond is None or cond["k"] != "Binary" or cond["op"] not in ("<", "<=", "!="):
+                    continue
+                iv, K = lv(cond["c"][0]), cval(cond["c"][1])
+                if iv is None or K is None:
+                    continue
+                if cond["op"] == "<=":
+                    K += 1
+                ia = assigned(inc) if inc is not None else None
+                if not ia or lv(ia[0]) != iv or ia[1] != "++":
+                    continue
+                lo = None
+                if init is not None:
+                    a = assigned(init)
+                    if a and lv(a[0]) == iv and a[1] == "=":
+                        lo = cval(a[2])
+                    elif init["k"] == "DeclStmt":
+                        for v in init["c"]:
+                            if v["n"] == iv and v.get("c"):
+                                lo = cval(v["c"][0])
+                if lo is None:
+                    continue
+                # the induction variable is not written in the body
+                if any(assigned(s) and lv(assigned(s)[0]) == iv for s in subnodes(body)):
+                    continue
+                arrs = {}
+                for s in subnodes(body):
+                    if s["k"] == "Sub" and lv(s["c"][1]) == iv:
+                        b = strip(s["c"][0])
+                        if b is not None and b["k"] == "Member" and T[b["t"]].get("arr") and (b.get("rec"), b["f"]) not in enum_indexed:
+                            arrs[(b.get("rec"), b["f"])] = T[b["t"]]["arr"]
+                for (rec, fld), N in sorted(arrs.items(), key=str):
+                    n += 1
+                    ok = lo == 0 and K == N
+                    perf[(f.name, fld)] = perf.get((f.name, fld), 0) + 1
+                    chk.inst(rule, f, "loop:%s.%s#%d" % (rec, fld, perf[(f.name, fld)]), ok, "the counted loop over the %d slots of %s.%s covers [%d, %d)%s"
+                             % (N, rec, fld, lo, K, "" if ok else ": not the whole array"), loc=f.loc(lp))
+    return n
